@@ -6,6 +6,8 @@ INVARIANT I_CvConsistency
 INVARIANT I_BarrierGroups
 INVARIANT I_PhaseConsistency
 INVARIANT I_CommExactlyOnce
+INVARIANT I_Lifecycle
+INVARIANT I_FailureReported
 INVARIANT PrintOutcomes
 PROPERTY ClockMonotone
 PROPERTY MutexFifoHandoff
